@@ -31,9 +31,14 @@ func (e *Engine) argInt(v Value) int {
 }
 
 func (e *Engine) lookupType(pkgPath, name string) types.Type {
+	key := pkgPath + "." + name
+	if t, ok := e.Program.typeCache.Load(key); ok {
+		return t.(types.Type)
+	}
 	for _, p := range e.prog.AllPackages() {
 		if p.Pkg.Path() == pkgPath {
 			if m := p.Members[name]; m != nil {
+				e.Program.typeCache.Store(key, m.Type())
 				return m.Type()
 			}
 		}
